@@ -189,6 +189,9 @@ func ParseURI(raw string) (*URI, error) { //nolint:gocognit,cyclop
 	if uri.Port, err = strconv.Atoi(rawPort); err != nil {
 		return nil, ErrPort
 	}
+	if uri.Port < 0 || uri.Port > 65535 {
+		return nil, ErrPort
+	}
 
 	switch uri.Scheme {
 	case SchemeTypeSTUN:
